@@ -3582,24 +3582,27 @@ class DecVar(Vars):
     def evtadapt(self, scens):
 
         if isinstance(scens, Scen):
-            events = scens.series
+            # a Scen object carries the positions of its scenarios
+            indices = scens.series
+            indices = ([indices] if isinstance(indices, Real) else
+                       list(indices))
         else:
             events = scens
-        # events = list(events) if isinstance(events, Iterable) else [events]
-        events = [events] if isinstance(events, (str, Real)) else list(events)
+            events = ([events] if isinstance(events, (str, Real)) else
+                      list(events))
+            indices = list(self.dro_model.series_scen[events])
 
-        for event in events:
-            index = self.dro_model.series_scen[event]
+        for index in indices:
             if index in self.event_adapt[0]:
                 self.event_adapt[0].remove(index)
             else:
-                raise KeyError('Wrong scenario index or {0} '.format(event) +
+                raise KeyError('Wrong scenario index or {0} '.format(index) +
                                'has been redefined.')
 
         if not self.event_adapt[0]:
             self.event_adapt.pop(0)
 
-        self.event_adapt.append(list(self.dro_model.series_scen[events]))
+        self.event_adapt.append(list(indices))
 
     def affadapt(self, rvars):
 
